@@ -267,16 +267,23 @@ class Gen:
                 e = self.pick([lambda: self.slice(e, d), lambda: [A("item"), e, self.pick([c(0), [A("un"), "-", c(1)]])]])()
             return e
         if r.random() < 0.12 * self.consts:
-            # a constant subexpression whose value depends on the escaping mode
-            meta = self.pick(["<b>", "a&b", "it's", 'say "q"', "&lt;"])
-            safe = [A("filter"), cs(self.pick(["<i>", "x", "<b>"])), self.pick(["safe", "escape"])]
-            return self.pick([
-                [A("cat"), safe, cs(meta)],
-                [A("cat"), cs(meta), safe, c(r.randrange(0, 9))],
-                [A("filter"), [A("list"), cs(meta), safe], "join"] + ([cs(self.pick(["<", ", "]))] if r.random() < 0.6 else []),
-                [A("filter"), safe, "replace", cs("x"), cs(meta)],
-                [A("bin"), "+", safe, cs(meta)],
-            ])
+            sens = self.sensitive_const()
+            if r.random() < 0.45:
+                # ... as a constant operand in a *list position* (concat operand, filter argument, list item) of an
+                # expression that is not constant as a whole: it is folded on its own, by the optimizer's child visit
+                var = n(self.pick(["s", "u", "m", "i", "zz"]))
+                return self.pick([
+                    [A("cat"), sens, var],
+                    [A("cat"), var, sens],
+                    [A("cat"), var, sens, self.sensitive_const()],
+                    [A("filter"), var, "replace", cs("x"), sens],
+                    [A("filter"), [A("list"), sens, var], "join"] + ([cs(self.pick(["<", ", "]))] if r.random() < 0.5 else []),
+                    [A("filter"), [A("list"), var, var], "join", sens],
+                    [A("filter"), self.pick([n("zz"), n("n")]), "default", sens],
+                    [A("filter"), [A("tuple"), sens, var], "join"],
+                    [A("cond"), n("b"), [A("cat"), sens, var], sens],
+                ])
+            return sens
         k = r.random()
         if k < 0.22:
             return [A("cat")] + [self.pick([self.str, self.str, self.int, self.any])(d - 1) for _ in range(r.randrange(2, 4))]
@@ -303,6 +310,19 @@ class Gen:
             return [A("filter"), self.pick([n("zz"), n("n"), cs(""), self.str(d - 1)]), self.pick(["default", "d"])] + \
                 ([self.str(d - 1)] + ([c(True)] if r.random() < 0.5 else []) if r.random() < 0.8 else [])
         return [A("filter"), self.strlist(d - 1), self.pick(["first", "last"])]
+
+    def sensitive_const(self):
+        """a constant subexpression whose value depends on the escaping mode"""
+        r = self.rng
+        meta = self.pick(["<b>", "a&b", "it's", 'say "q"', "&lt;"])
+        safe = [A("filter"), cs(self.pick(["<i>", "x", "<b>"])), self.pick(["safe", "escape"])]
+        return self.pick([
+            [A("cat"), safe, cs(meta)],
+            [A("cat"), cs(meta), safe, c(r.randrange(0, 9))],
+            [A("filter"), [A("list"), cs(meta), safe], "join"] + ([cs(self.pick(["<", ", "]))] if r.random() < 0.6 else []),
+            [A("filter"), safe, "replace", cs("x"), cs(meta)],
+            [A("bin"), "+", safe, cs(meta)],
+        ])
 
     def bool(self, d):
         r = self.rng
